@@ -15,12 +15,19 @@ def replay_history(writer, blocked, lengths, fins, readable=True, content=None):
         items = [{'MTI': '1144', 'DE2': v} for v in content] if content else \
             [{'MTI': '1144', 'DE2': ''.join(chr(65 + (j + i) % 26) for j in range(n))} for i, n in enumerate(lengths)]
     w.__enter__()
+    bound_close = w.close
     for it in items:
         w.write(it)
     snap = None
     for k, fin in enumerate(fins):
         if fin == 'close':
             w.close()
+        elif fin == 'bound-close':
+            bound_close()
+        elif fin.startswith('exit-'):
+            exc = {'exit-error': ValueError, 'exit-generator-exit': GeneratorExit, 'exit-keyboard-interrupt': KeyboardInterrupt}[fin]
+            if w.__exit__(exc, exc('leaving the with block'), None):
+                return True, '__exit__ swallows the exception', 'C11/exit-swallows'
         elif fin == 'with':
             with w:
                 pass
